@@ -34,6 +34,18 @@ source on every run.
                                          `Some(SyncMessage::V1(SyncMessageV1::Rejection(r))) => { return Err(r.into()) }`
                                          before `compute_available_needs`
 
+Freshness.  Every site also records WHERE the node's own cluster id comes from:
+  fresh = true   `agent.cluster_id()` evaluated at the use site, or a local bound to it INSIDE the innermost
+                 long-running loop (`loop {` / `while … {`) that encloses the use, or in a function that runs
+                 once per session / per sync round (serve_sync, parallel_sync, handle_sync)
+  fresh = false  a local (or field shorthand resolved to a local) bound to `agent.cluster_id()` OUTSIDE a loop
+                 that encloses the use: the value is read once when the task starts and a run-time
+                 `cluster set-id` never reaches it; or a function parameter handed in once per accepted
+                 connection (the uni handler: staleness window = one accepted connection)
+A local that is bound to anything else than `agent.cluster_id()`, or an operand that cannot be resolved, makes
+the site `guarded = false`.  `all_sites_fresh` (Props/C16.lean) requires fresh for every site except
+`uni.drop_on_mismatch`, whose window is documented there.
+
 Strict: a file, function or anchor (the push, the filter closure, the enum...) that cannot be found raises
 (tools/check then reports the broken tie).  A site that is found but whose comparison is missing, inverted
 or joined with the wrong connective is recorded `false`, which makes `all_sites_guarded` fail to build.
@@ -198,7 +210,63 @@ def call_args(body, callee, rel):
     return args
 
 
+
+def _loop_blocks(body):
+    """[(open_brace, close_brace)] of every `loop {` / `while … {` block of the squashed body"""
+    out = []
+    for m in re.finditer(r"(?<![A-Za-z0-9_])loop\{", body):
+        o = m.end() - 1
+        out.append((o, match_close(body, o)))
+    for m in re.finditer(r"(?<![A-Za-z0-9_])while(?=let|!|\(|[a-z_]+[.(])", body):
+        depth, j = 0, m.end()
+        while j < len(body):
+            ch = body[j]
+            if ch in "([":
+                depth += 1
+            elif ch in ")]":
+                depth -= 1
+            elif ch == "{" and depth == 0:
+                break
+            j += 1
+        if j < len(body):
+            out.append((j, match_close(body, j)))
+    return out
+
+
+def resolve_own(body, expr, use_pos, rel, sig=""):
+    """Where does `expr` (an operand that should be the node's own cluster id) come from?
+    -> (is_own_id, fresh, note)"""
+    e = unparen(expr)
+    if e == "agent.cluster_id()":
+        return True, True, "agent.cluster_id() at the use site"
+    if not re.fullmatch(r"[A-Za-z_][A-Za-z0-9_]*", e):
+        return False, False, f"unrecognised operand `{e}`"
+    binds = [(m.start(), m.group(1)) for m in re.finditer(r"let(?:mut)?" + re.escape(e) + r"(?::[A-Za-z0-9_:<>]+)?=([^;]*);", body) if m.start() < use_pos]
+    if not binds:
+        if re.search(r"[(,]" + re.escape(e) + r":ClusterId[,)]", sig):
+            return False, False, f"`{e}` is a parameter of the function"
+        raise ExtractError(f"{rel}: cannot resolve `{e}` (no `let {e} = …;` before its use)")
+    bpos, rhs = binds[-1]
+    if rhs not in ("agent.cluster_id()", "*agent.cluster_id()"):
+        return False, False, f"`{e}` is bound to `{rhs[:60]}`"
+    stale = [1 for (o, c) in _loop_blocks(body) if bpos < o < use_pos < c]
+    if stale:
+        return True, False, f"local `{e}` = agent.cluster_id() bound OUTSIDE the enclosing loop (read once at task start)"
+    return True, True, f"local `{e}` = agent.cluster_id() bound inside the enclosing loop / per call"
+
+
+def other_operand(expr, fixed, op):
+    """X if expr is `fixed op X` or `X op fixed`"""
+    e = unparen(expr)
+    if e.startswith(fixed + op):
+        return e[len(fixed + op):]
+    if e.endswith(op + fixed):
+        return e[:-len(op + fixed)]
+    return None
+
+
 # ------------------------------------------------------------------ the sites
+# every site function returns (guarded, fresh, note)
 
 def site_uni(repo):
     rel = "crates/klukai-agent/src/agent/uni.rs"
@@ -206,7 +274,7 @@ def site_uni(repo):
     if "cluster_id:ClusterId" not in sig:
         raise ExtractError(f"{rel}: spawn_unipayload_handler has no `cluster_id: ClusterId` parameter")
     if re.search(r"\blet(mut)?cluster_id\b", body) or "letcluster_id" in body or "letmutcluster_id" in body:
-        return False, "cluster_id is re-bound inside the handler"
+        return False, False, "cluster_id is re-bound inside the handler"
     pushes = [m.start() for m in re.finditer(r"changes\.push\(", body)]
     if len(pushes) != 1:
         raise ExtractError(f"{rel}: expected exactly one `changes.push(` in the handler, found {len(pushes)}")
@@ -218,8 +286,9 @@ def site_uni(repo):
     p = arm.group(2)
     between = body[arm.end():pushes[0]]
     if between in (f"ifcluster_id!={p}{{continue;}}", f"if{p}!=cluster_id{{continue;}}"):
-        return True, between
-    return False, between[:120] or "<nothing between the arm and the push>"
+        # the own id is the handler's parameter: handed in once per accepted connection
+        return True, False, between + "  [cluster_id = fn parameter, fixed per accepted connection]"
+    return False, False, between[:120] or "<nothing between the arm and the push>"
 
 
 def site_uni_capture(repo):
@@ -228,7 +297,7 @@ def site_uni_capture(repo):
     args = call_args(body, "spawn_unipayload_handler", rel)
     if len(args) != 4:
         raise ExtractError(f"{rel}: spawn_unipayload_handler call has {len(args)} arguments")
-    return args[2] == "agent.cluster_id()", args[2]
+    return args[2] == "agent.cluster_id()", args[2] == "agent.cluster_id()", args[2] + "  [evaluated when the connection is accepted]"
 
 
 def site_serve_sync(repo):
@@ -241,32 +310,34 @@ def site_serve_sync(repo):
         raise ExtractError(f"{rel}: serve_sync no longer has the expected shape (read_sync_msg/generate_sync/State/process_sync)")
     first_use = min(later)
     if "letcluster_id" in body[:first_use] or "letmutcluster_id" in body[:first_use]:
-        return False, "cluster_id is re-bound before the check"
+        return False, False, "cluster_id is re-bound before the check"
     m = re.search(r"if(\(?[\w.()]*cluster_id[\w.()]*(?:==|!=)[\w.()]*\)?)\{", body)
     if not m or m.start() > first_use:
-        return False, "no cluster_id comparison before the first read/State"
+        return False, False, "no cluster_id comparison before the first read/State"
     cond = m.group(1)
     blk_close = match_close(body, m.end() - 1)
     blk = body[m.end():blk_close]
-    ok = (is_cmp(cond, "cluster_id", "agent.cluster_id()", "!=")
+    own = other_operand(cond, "cluster_id", "!=")
+    is_own, fresh, note = resolve_own(body, own, m.start(), rel, sig) if own else (False, False, "no `cluster_id != <own id>` comparison")
+    ok = (is_own
           and "SyncMessage::V1(SyncMessageV1::Rejection(SyncRejectionV1::DifferentCluster))" in blk
           and blk.endswith("returnOk(0);")
           and "SyncMessageV1::State" not in blk and "SyncMessageV1::Changeset" not in blk)
     # nothing is written before the check
     if "encode_write_sync_msg(" in body[:m.start()] or "write_buf(" in body[:m.start()]:
         ok = False
-    return ok, f"if {cond} {{ ..{'Rejection(DifferentCluster)' if 'DifferentCluster' in blk else 'no rejection'}.. }}"
+    return ok, ok and fresh, f"if {cond} {{ ..{'Rejection(DifferentCluster)' if 'DifferentCluster' in blk else 'no rejection'}.. }}  [{note}]"
 
 
 def site_bi(repo):
     rel = "crates/klukai-agent/src/agent/bi.rs"
     _, body = fn_parts(read(repo, rel), "spawn_bipayload_handler", rel)
     if not re.search(r"BiPayload::V1\{data,cluster_id,?\}=>", body):
-        return False, "BiPayload::V1 pattern does not bind cluster_id"
+        return False, False, "BiPayload::V1 pattern does not bind cluster_id"
     args = call_args(body, "serve_sync", rel)
     if len(args) != 7:
         raise ExtractError(f"{rel}: serve_sync call has {len(args)} arguments")
-    return args[4] == "cluster_id", args[4]
+    return args[4] == "cluster_id", args[4] == "cluster_id", args[4] + "  [the id the frame declares]"
 
 
 def closure_after(body, anchor, method, rel):
@@ -297,13 +368,16 @@ def site_handle_sync(repo):
     if params not in ("(id,state)",):
         raise ExtractError(f"{rel}: unexpected filter closure parameters {params}")
     if "||" in "".join(top_split(cb, "&&")) and len(top_split(cb, "||")) > 1:
-        return False, cb[:160]
+        return False, False, cb[:160]
     conj = top_split(cb, "&&")
-    ok = any(is_cmp(c, "state.cluster_id", "agent.cluster_id()", "==") for c in conj)
+    owns = [x for x in (other_operand(c, "state.cluster_id", "==") for c in conj) if x]
+    use = body.find("members.states.iter().filter(")
+    is_own, fresh, note = resolve_own(body, owns[0], use, rel) if len(owns) == 1 else (False, False, "no `state.cluster_id == <own id>` conjunct")
+    ok = is_own
     # the candidates must come from this filter: the chain is collected straight into `candidates`
     if not re.search(r"letcandidates=\{letmembers=agent\.members\(\)\.read\(\);members\.states\.iter\(\)\.filter\(", body):
         raise ExtractError(f"{rel}: `let candidates = {{ let members = agent.members().read(); members.states.iter().filter(` not found")
-    return ok, cb[:160]
+    return ok, ok and fresh, cb[:160] + f"  [{note}]"
 
 
 def site_broadcast_targets(repo):
@@ -315,13 +389,15 @@ def site_broadcast_targets(repo):
         raise ExtractError(f"{rel}: unexpected filter_map closure parameters {params}")
     m = re.match(r"if(.*)\{None\}else\{Some\(state\.addr\)\}$", cb)
     if not m:
-        return False, cb[:200]
+        return False, False, cb[:200]
     cond = m.group(1)
     if len(top_split(cond, "&&")) > 1:
-        return False, cond[:200]
+        return False, False, cond[:200]
     disj = top_split(cond, "||")
-    ok = any(is_cmp(d, "state.cluster_id", "agent.cluster_id()", "!=") for d in disj)
-    return ok, cond[:200]
+    owns = [x for x in (other_operand(d, "state.cluster_id", "!=") for d in disj) if x]
+    use = body.find(anchor)
+    is_own, fresh, note = resolve_own(body, owns[0], use, rel) if len(owns) == 1 else (False, False, "no `state.cluster_id != <own id>` disjunct")
+    return is_own, is_own and fresh, cond[:200] + f"  [{note}]"
 
 
 def site_ring0_calls(repo):
@@ -330,23 +406,24 @@ def site_ring0_calls(repo):
     calls = [m.end() - 1 for m in re.finditer(r"\.ring0\(", body)]
     if not calls:
         raise ExtractError(f"{rel}: no `.ring0(` call in handle_broadcasts")
+    res = [resolve_own(body, body[i + 1:match_close(body, i)], i, rel) for i in calls]
     args = [body[i + 1:match_close(body, i)] for i in calls]
-    return all(a == "agent.cluster_id()" for a in args), ";".join(args)
+    return all(r[0] for r in res), all(r[0] and r[1] for r in res), ";".join(args) + "  [" + "; ".join(r[2] for r in res) + "]"
 
 
 def site_members_ring0(repo):
     rel = "crates/klukai-types/src/members.rs"
     sig, body = fn_parts(read(repo, rel), "ring0", rel)
     if "cluster_id:ClusterId" not in sig:
-        return False, "ring0 takes no cluster id"
+        return False, False, "ring0 takes no cluster id"
     m = re.search(r"\.and_then\(\|ring\|\((.*?)\)\.then_some\(v\.addr\)\)", body)
     if not m:
-        return False, body[:200]
+        return False, False, body[:200]
     conj = top_split(m.group(1), "&&")
     ok = (len(top_split(m.group(1), "||")) == 1
           and any(is_cmp(c, "v.cluster_id", "cluster_id", "==") for c in conj)
           and any(is_cmp(c, "ring", "0", "==") for c in conj))
-    return ok, m.group(1)
+    return ok, ok, m.group(1) + "  [the caller's argument]"
 
 
 def site_payload(repo, enum):
@@ -361,7 +438,7 @@ def site_payload(repo, enum):
     if i < 0:
         raise ExtractError(f"{rel}: {enum} has no `cluster_id: ClusterId` field")
     attr = "#[speedy(default_on_eof)]"
-    return body[:i].endswith(attr), body[max(0, i - 40):i + 20]
+    return body[:i].endswith(attr), body[:i].endswith(attr), body[max(0, i - 40):i + 20]
 
 
 def site_default_zero(repo):
@@ -371,7 +448,7 @@ def site_default_zero(repo):
     if not m:
         raise ExtractError(f"{rel}: `pub struct ClusterId(pub u16);` with a derive list not found")
     ok = "Default" in m.group(1).split(",") and "implDefaultforClusterId" not in code
-    return ok, "derive(" + m.group(1) + ")"
+    return ok, ok, "derive(" + m.group(1) + ")"
 
 
 def site_sender_uni(repo):
@@ -382,10 +459,12 @@ def site_sender_uni(repo):
         raise ExtractError(f"{rel}: expected exactly one `UniPayload::V1 {{` construction in handle_broadcasts, found {len(ms)}")
     cl = match_close(body, ms[0].end() - 1)
     fields = top_split(body[ms[0].end():cl], ",")
-    cf = [f for f in fields if f.startswith("cluster_id:")]
+    cf = [f for f in fields if f.startswith("cluster_id:") or f == "cluster_id"]
     if len(cf) != 1:
         raise ExtractError(f"{rel}: UniPayload::V1 construction has no cluster_id field")
-    return cf[0] == "cluster_id:agent.cluster_id()", cf[0]
+    val = cf[0][len("cluster_id:"):] if ":" in cf[0] else "cluster_id"      # field shorthand = a local of that name
+    is_own, fresh, note = resolve_own(body, val, ms[0].start(), rel)
+    return is_own, is_own and fresh, cf[0] + f"  [{note}]"
 
 
 def site_client(repo):
@@ -396,15 +475,18 @@ def site_client(repo):
         raise ExtractError(f"{rel}: expected exactly one `BiPayload::V1 {{` construction in parallel_sync, found {len(ms)}")
     cl = match_close(body, ms[0].end() - 1)
     fields = top_split(body[ms[0].end():cl], ",")
-    cf = [f for f in fields if f.startswith("cluster_id:")]
+    cf = [f for f in fields if f.startswith("cluster_id:") or f == "cluster_id"]
     if len(cf) != 1:
         raise ExtractError(f"{rel}: BiPayload::V1 construction has no cluster_id field")
-    declares = (cf[0] == "cluster_id:agent.cluster_id()", cf[0])
+    val = cf[0][len("cluster_id:"):] if ":" in cf[0] else "cluster_id"
+    is_own, fresh, note = resolve_own(body, val, ms[0].start(), rel)
+    declares = (is_own, is_own and fresh, cf[0] + f"  [{note}]")
     needs = body.find("compute_available_needs(")
     if needs < 0:
         raise ExtractError(f"{rel}: parallel_sync no longer calls compute_available_needs")
     m = re.search(r"Some\(SyncMessage::V1\(SyncMessageV1::Rejection\((\w+)\)\)\)=>\{?returnErr\(\1\.into\(\)\);?\}?", body)
-    aborts = (bool(m) and m.start() < needs, m.group(0) if m else "no `Rejection(r) => return Err(r.into())` arm")
+    ab = bool(m) and m.start() < needs
+    aborts = (ab, ab, m.group(0) if m else "no `Rejection(r) => return Err(r.into())` arm")
     return declares, aborts
 
 
@@ -412,8 +494,8 @@ def extract(repo):
     rows = []
 
     def add(name, res):
-        ok, what = res
-        rows.append((name, bool(ok), what))
+        ok, fresh, what = res
+        rows.append((name, bool(ok), bool(fresh), what))
 
     add("uni.drop_on_mismatch", site_uni(repo))
     add("uni.captured_is_agent_id", site_uni_capture(repo))
@@ -435,15 +517,20 @@ def extract(repo):
         "/- GENERATED by tools/extract_c16.py from the cluster-id decision sites of /repo",
         "   (agent/uni.rs, agent/bi.rs, agent/handlers.rs, api/peer/mod.rs, broadcast/mod.rs,",
         "   klukai-types/src/{members,broadcast,actor}.rs).  Do not edit: regenerated at the start of every check.",
-        "   One entry per site: `true` = the comparison is present in the source with the expected polarity.",
-        "   The text after `--` is what was found at the site (whitespace removed). -/",
+        "   One entry per site: (name, guarded, fresh).",
+        "   guarded = the comparison / stamp is present in the source with the expected polarity and its own-id",
+        "             operand is the agent's cluster id;",
+        "   fresh   = that operand is `agent.cluster_id()` evaluated at the use site (or bound inside the enclosing",
+        "             loop / per call), not a value read once outside the task's loop or per accepted connection.",
+        "   The text after `--` is what was found at the site (whitespace removed) and [where the id comes from]. -/",
         "namespace Corro.Gen.ClusterSites",
         "",
-        "def sites : List (String × Bool) := [",
+        "def sites : List (String × Bool × Bool) := [",
     ]
-    for i, (name, ok, what) in enumerate(rows):
+    for i, (name, ok, fresh, what) in enumerate(rows):
         what = re.sub(r"[^\x20-\x7e]", "?", what).replace("-/", "- /").replace("/-", "/ -")
         comma = "," if i + 1 < len(rows) else ""
-        lines.append(f'  ("{name}", {"true" if ok else "false"}){comma}  -- {what}')
+        b = lambda x: "true" if x else "false"
+        lines.append(f'  ("{name}", {b(ok)}, {b(fresh)}){comma}  -- {what}')
     lines += ["]", "", "end Corro.Gen.ClusterSites", ""]
     return [("ClusterSites.lean", "\n".join(lines))]
